@@ -118,6 +118,16 @@ CHECKS = {'C01': {'design_ref': 'DESIGN.md 3/C01',
                  'on/off on 9 image letters (3 classes, 2-D/3-D, uint8/float/bool, 1-5 channels), chained to depth 2 in thorough, is compared bit for bit with '
                  'plain slicing incl. landmarks, mask, dtype and the refusal contract; patch extraction is run on EVERY integer centre from -2 to S+1 for 6 '
                  'patch shapes x 3 offset sets x both paths against a per-pixel reference, plus fractional centres and extract/set round trips.'},
+ 'C14': {'design_ref': 'DESIGN.md 3/C14',
+         'note': 'open findings D11 (cost formula) and D23 (start=end) matched by footprint predicates; random graphs replaced by complete small scopes plus '
+                 'structured families',
+         'technique': 'exhaustive small-scope enumeration of graphs x queries explored to depth 2 on the implementation against textbook reference algorithms',
+         'text': 'Every undirected graph on <=4 (quick; static queries also on all n=5) / <=5 (thorough) vertices, every digraph on <=3 / <=4 vertices, every '
+                 'labelled rooted tree on <=5 vertices, built from edge lists (each orientation, duplicated edge) and adjacency matrices, abstract and '
+                 'point-carrying, plus structured families up to 40 vertices: every vertex mask, every root, every (start,end) pair incl. start=end. Oracle: '
+                 'set-based reference graph (edges once, symmetric adjacency, neighbours/children/parents, isolated vertices, adjacency list, is_edge), '
+                 'induced-subgraph masking renumbered in order (trees keep what stays connected to the root), colouring-DFS cycle test, tree test, path '
+                 'validity, Floyd-Warshall distances, Kruskal weight, BFS tree relations; thorough repeats the alphabet on mask results (depth 2).'},
  'C16': {'design_ref': 'DESIGN.md 3/C16',
          'note': 'no ffmpeg: the video exporter is explored for the refusal path only; gz payloads compared after decompression (header carries an mtime)',
          'technique': 'explicit-state BFS over operation histories on the implementation, each transition checked against a reference model',
@@ -145,11 +155,13 @@ CHECKS = {'C01': {'design_ref': 'DESIGN.md 3/C01',
                  'kind kept, landmarks and mask unchanged or rescaled by the shape ratio, normaliser statistics against a numpy reference, idempotence, zero '
                  'scale refused or skipped.'},
  'C19': {'design_ref': 'DESIGN.md 3/C19',
-         'note': 'lists capped at 8 elements; deeper levels use reduced slice/index alphabets; boolean index arrays excluded as in the property',
-         'technique': 'explicit-state BFS over operation programs on the implementation, differential against a reference model',
-         'text': 'Every program of LazyList operations up to the depth bound (2 quick; 3 wide + 4 narrow thorough) over 6 base configurations is executed on '
-                 'the real LazyList and on a plain-list-of-expression-trees model; laziness is decided from an evaluation log, non-mutation by re-reading '
-                 'every live list after every step. Bounded exhaustive: no sampling.'},
+         'note': 'lists capped at 8 elements; deeper levels use reduced slice/index alphabets; boolean index arrays excluded as in the property; the ffmpeg '
+                 'process is replaced by an in-memory fake at the subprocess seam',
+         'technique': 'explicit-state BFS over operation programs / read histories on the implementation, differential against a reference model',
+         'text': 'Every program of LazyList operations up to the depth bound (2 quick; 3 wide + 4 narrow thorough) over 6 base configurations (raw callables '
+                 'and both public constructors) is executed on the real LazyList and on a plain-list-of-expression-trees model; laziness is decided from an '
+                 "evaluation log, non-mutation by re-reading every live list after every step; video-backed lazy lists (menpo's ffmpeg reader behind a fake "
+                 'ffmpeg process) are explored over every sequence of reads up to depth 3/4, each read compared with an ordinary list.'},
  'C20': {'design_ref': 'DESIGN.md 3/C20',
          'note': 'continuous quantifiers decided on letter grids; open finding D4 (2-D angle sign) matched by footprint; numpy.random seeded around the 3-D '
                  'axis-angle query',
